@@ -85,14 +85,14 @@ def pairs_of(ws):
     return ["".join(ws[i:i + 2]) for i in range(0, len(ws), 2)]
 
 
-def check_variant(sp, v, do_even, do_faithful, container="list"):
+def check_variant(sp, v, do_even, do_faithful, container="list", labels="int"):
     """Returns (evaluations, [(clause, detail)], sample)."""
     M, L = sp["M"], sp["L"]
     n = 0
     bad = []
     sample = None
     try:
-        G, names = cc.build_group(M, v["route"], v["style"], v["inf"], container)
+        G, names, input_unchanged = cc.build_group_ex(M, v["route"], v["style"], v["inf"], container, labels)
     except Exception as e:
         return 1, [("raised:CoxeterGroup", "%s: %s" % (type(e).__name__, e))], None
     if v["route"] == "diagram" and not np.array_equal(np.asarray(G.coxeter_matrix), np.array(cc.lib_matrix(M, v["inf"]))):
@@ -188,6 +188,18 @@ def check_variant(sp, v, do_even, do_faithful, container="list"):
                     break
         except Exception as e:
             bad.append(("raised:canonical_representation", "%s: %s" % (type(e).__name__, e)))
+    # the queries above must not have changed the group object nor the caller's input
+    try:
+        if not do_faithful:
+            G.canonical_representation()
+        cm = np.asarray(G.coxeter_matrix)
+        if not np.array_equal(cm, np.array(cc.lib_matrix(M, v["inf"]))):
+            bad.append(("object_unchanged", "coxeter_matrix is now %r, was %r" % (np.round(cm.astype(float), 9).tolist(), cc.lib_matrix(M, v["inf"]))))
+        d = input_unchanged()
+        if d:
+            bad.append(("input_unchanged", d))
+    except Exception as e:
+        bad.append(("raised:object_unchanged", "%s: %s" % (type(e).__name__, e)))
     return n, bad, sample
 
 
@@ -199,13 +211,14 @@ def check_matrix(args):
     sample = None
     for vi, v in enumerate(VARIANTS[:n_variants]):
         container = cc.DIAGRAM_CONTAINERS[(m + vi) % len(cc.DIAGRAM_CONTAINERS)]
-        n, bad, s = check_variant(sp, v, do_even, do_faithful=(vi == 0), container=container)
+        labels = cc.LABEL_TYPES[(m + vi + 1) % 2] if vi > 0 else "int"
+        n, bad, s = check_variant(sp, v, do_even, do_faithful=(vi == 0), container=container, labels=labels)
         if any(c.endswith("not_produced") for c, _ in bad):
             do_even = False     # do not wait for the same construction again under the next variant
         tot += n
         sample = sample or s
         for clause, detail in bad[:3]:
-            out.append((dict(matrix=sp["M"], route=v["route"] + ("(%s)" % container if v["route"] == "diagram" else ""),
+            out.append((dict(matrix=sp["M"], route=v["route"] + ("(%s)" % container if v["route"] == "diagram" else "") + ("[float]" if labels == "float" else ""),
                              style=v["style"], inf=v["inf"]), clause, detail))
     return m, tot, out, sample
 
@@ -287,6 +300,8 @@ def run(run, replay=None):
         "an automaton must be returned within 60 s of CPU time, its even-length variant within 3 x the measured time of the base automaton + 20 s",
         "shipped files cox237/334/3334/535: the assignment of labels to pairs of letters is read off the file (relabelling freedom)",
         "lexicographic order: order of the generators in ordered_gens (matrix index order)",
+        "labels handed over as int64 or float64 with integral values (alternating on the non-primary variants); coxeter_matrix and the "
+        "caller's input must be unchanged after the automata and the canonical representation were built",
     ]
     workers = min(8, core.NCPU)
     run.extra["matrices"] = 0
